@@ -105,6 +105,8 @@ var c15Comments = []struct{ body, nonspace string }{
 	// letters whose UTF-8 encoding ends in a byte that is a space in Latin-1 (0xA0, 0x85) are letters: // after them is text
 	{"voil\u00e0//x", "voil\u00e0//x"}, {"\u0160//y z", "\u0160//yz"}, {"\u4e05//k", "\u4e05//k"}, {"\u0405// k", "\u0405//k"}, {"\u00e0/* c */b", "\u00e0b"}, {"x \u00e0 // c\nb", "x\u00e0b"},
 	{"\u00e0//", "\u00e0//"}, {"a\u4e05//b // c", "a\u4e05//b"},
+	// U+0000 is a character like any other: // after it is text, and it does not glue lines together
+	{"a\x00//b", "a\x00//b"}, {"{$ij.x}\x00// c", "X\x00//c"}, {"a\x00\nb // c", "a\x00b"},
 	// special-character commands emit exactly their characters, also inside a message and also when the result looks like a placeholder
 	{"{msg desc=\"d\"}Write {lb}0{rb} to greet {lb}NAME{rb}{/msg}", "Write{0}togreet{NAME}"}, {"{msg desc=\"d\"}{lb}A_1{rb}{$ij.x}{lb}{$ij.x}{rb}{/msg}", "{A_1}X{X}"},
 	{"{msg desc=\"d\"}{lb}{lb}X{rb}{rb} {lb}{rb} {rb}{lb}{/msg}", "{{X}}{}}{"}, {"{lb}NAME{rb}{sp}{lb}0{rb}{nil}{lb}", "{NAME}{0}{"},
@@ -330,7 +332,7 @@ func init() {
 			case i == nEx+nPf:
 				commentsOnly = true
 			default:
-				alpha := append(append([]string{}, c15Alphabet...), "中", "😀", "\u00e0", "\u4e05", "\u0160", "\u00a0", "\u3000", "\u2028", "\u00a0\n", "\n\u3000", "b", "\n", "\n  ", " ", "\ufeff", "x\ufeffy", "\u200b")
+				alpha := append(append([]string{}, c15Alphabet...), "中", "😀", "\u00e0", "\u4e05", "\u0160", "\u00a0", "\u3000", "\u2028", "\u00a0\n", "\n\u3000", "b", "\n", "\n  ", " ", "\ufeff", "x\ufeffy", "\u200b", "\x00", "\x00\n", "\n\x00", "\x01", "\x7f")
 				for k := 0; k < c15Batch; k++ {
 					n := 6 + ctx.Rng.Intn(20)
 					var b strings.Builder
